@@ -18,6 +18,8 @@ RULE = (
     'body outcome and the ordered logged failures of direct children, compared by identity. '
     'non-trivial = a block with a failing child or body was left; distinct = activation trace'
 )
+RULE = RULE + (" Further: failures that are no Exception (-O configurations), same-named exception classes (type of the Concurrent vs its children), scope classes of the program's own extending SUPPRESS_CONCURRENT / PROMOTE_CONCURRENT, blocks driven by hand through __aenter__/__aexit__, negative start times; a privileged failure of a child is never lost to a signal or a regular body exception.")
+
 LEVEL_TEXT = (
     'Exploration by runtime monitoring: at every block exit of the real code the outcome '
     '(no exception / identical body exception / Concurrent with exactly the logged child '
